@@ -16,7 +16,8 @@ RULE = ("(a) enumerated: every ordered pair of the 21 prefixes x every ordered p
         "(zero, +-1, +-1000, +-0.001, +-999.999, 1.5, 25-digit integers/fractions, boundary straddlers); "
         "(b) Hypothesis-generated Decimal mantissas (1..25 digits, thorough: ..40) with any prefix pair. "
         "Every case runs +,-,*,neg,abs,scale(to each operand prefix and auto),to_prefixed,number*Prefix, the six "
-        "comparisons, hash, int, float against Fraction arithmetic. Non-trivial = operands with different prefixes, "
+        "comparisons, hash, int, float against Fraction arithmetic; the same on results of a*b and a+b, and on copies of an "
+        "already used number (model_copy with another prefix / number, copy, deepcopy, field edits of a copy). Non-trivial = operands with different prefixes, "
         "or a mantissa of >15 significant digits, or values within 1e-18 relative of each other; distinct by (a,b) text.")
 ASSUME = ["fractions.Fraction / decimal.Decimal / float(Fraction) of CPython are exact / correctly rounded",
           "tolerance is read as an absolute 1e-20 on the exact values: inside it either answer of a comparison "
@@ -178,6 +179,35 @@ def check_case(case):
         except Exception as e:
             out.append(("cmp_raises:%s" % type(e).__name__, "%s compared with %s raised %r" % (r, a, e)))
 
+    # numbers derived from a by the data-model routes (after a itself has been compared, hashed and converted above):
+    # a copy with another prefix, a copy.copy(), and an in-place edit of a copy's fields denote the value their fields say
+    try:
+        import copy as _copy
+        derived = [("model_copy(update=prefix)", a.model_copy(update={"prefix": b.prefix}), Fraction(a.number) * Fraction(10) ** b.prefix.value),
+                   ("model_copy(update=number)", a.model_copy(update={"number": b.number}), Fraction(b.number) * Fraction(10) ** a.prefix.value),
+                   ("copy.copy", _copy.copy(a), va), ("copy.deepcopy", _copy.deepcopy(a), va)]
+        e = _copy.copy(a)
+        hash(e); float(e) if abs(va) < Fraction(10) ** 300 else None
+        e.prefix = b.prefix
+        e.number = b.number
+        derived.append(("in-place edit of a copy", e, vb))
+        for how, x, want in derived:
+            fresh = Prefixed(number=x.number, prefix=x.prefix)
+            if val(x) != want:
+                out.append(("derived_fields_wrong", "%s of %s gives fields %s*%s" % (how, a, x.number, x.prefix)))
+            elif not (x == fresh) or hash(x) != hash(fresh) or (x < fresh) or (x > fresh) or int(x) != int(want):
+                out.append(("derived_number_stale", "%s of %s has fields %s but behaves otherwise: ==fresh %s, hash equal %s, int %s (value %s)" % (
+                    how, a, fresh, x == fresh, hash(x) == hash(fresh), int(x), int(want))))
+            else:
+                try:
+                    ef = float(want)
+                except OverflowError:
+                    ef = None
+                if ef is not None and float(x) != ef:
+                    out.append(("derived_number_stale", "%s of %s has fields %s but float() gives %r, nearest double of its value is %r" % (how, a, fresh, float(x), ef)))
+    except Exception as e:
+        out.append(("derived_raises:%s" % type(e).__name__, "copy / model_copy / field edit of %s raised %r" % (a, e)))
+
     # int / float
     try:
         i = int(a)
@@ -274,7 +304,22 @@ def shard(idx, n, tier):
         lambda t: "%s%dE%d" % ("-" if t[0] else "", t[1], t[2]))
     plain = st.tuples(st.booleans(), st.integers(0, 10**9), st.integers(0, 9)).map(
         lambda t: str(Decimal(("-" if t[0] else "") + str(t[1])).scaleb(-t[2])))
-    one = st.tuples(st.one_of(mant_s, plain, st.sampled_from(MANT_FULL)), st.sampled_from(PREFIXES))
+    import math
+    from decimal import localcontext
+
+    def midpoint(t):
+        """long decimal 1e-29..1e-45 relative beside the midpoint of two adjacent doubles, rescaled to prefix exponent pe"""
+        x, k, up, pe = t
+        with localcontext() as ctx:
+            ctx.prec = 500
+            mid = (Decimal(x) + Decimal(math.nextafter(x, math.inf))) / 2
+            v = mid + (1 if up else -1) * abs(mid).scaleb(-k)
+            return (str(v.scaleb(-pe)), pe)
+    mids = st.tuples(st.floats(min_value=1e-30, max_value=1e30, allow_nan=False, allow_infinity=False), st.integers(29, 45), st.booleans(),
+                     st.sampled_from(PREFIXES)).map(midpoint)
+    one = st.one_of(st.tuples(st.one_of(mant_s, plain, st.sampled_from(MANT_FULL)), st.sampled_from(PREFIXES)),
+                    st.tuples(st.one_of(mant_s, plain, st.sampled_from(MANT_FULL)), st.sampled_from(PREFIXES)),
+                    st.tuples(st.one_of(mant_s, plain, st.sampled_from(MANT_FULL)), st.sampled_from(PREFIXES)), mids)
 
     @st.composite
     def pair(draw):
